@@ -259,50 +259,14 @@ Leaf(pr, env, t, vn) ==      \* vn: library name of the test function ("v"; "u" 
     [] t = "Hu" -> PHessBF(pr, env, "u")  [] t = "Hv" -> PHessBF(pr, env, vn)
     [] t = "A" -> FieldMat(env, "A", d)   [] t = "J" -> Jac(pr, env)
     [] t = "Gg" -> [i \in 1..d |-> FieldGrad(pr, env, "g", i - 1)]
+    [] t = "Ainv" -> InverseM(FieldMat(env, "A", d))  [] t = "Jinv" -> JacInv(pr, env)
 
-IsLeaf(t) == t \in {"u","v","ux","uy","vx","vy","uxp","vyp","uxx","uxy","c","two","three","half","hpar","hx","gw",
-                     "f","f2","cD","twoD","gu","gv","gup","gh","g","x","Hu","Hv","A","J","Gg"}
-IsUnary(t) == t \in {"neg","sin","cos","exp","log","sqrt","abs","tan","sq","cube","negD","sqD","dx0","dx1","val","gradD",
-                      "norm","v0","v1","det","tr","m01","T","inv"}
-
-VecOp(op, x, y) == [q \in 1..Len(x) |-> Op2(op, x[q], y[q])]
-Unary(t, a) ==
-  CASE t = "neg" -> NegP(a)  [] t \in {"sin","cos","exp","log","sqrt","abs","tan"} -> Fn(t, a)
-    [] t = "sq" -> MulP(a, a)  [] t = "cube" -> MulP(MulP(a, a), a)
-    [] t = "negD" -> [v |-> NegP(a.v), g |-> [q \in 1..Len(a.g) |-> NegP(a.g[q])]]
-    [] t = "sqD"  -> [v |-> MulP(a.v, a.v), g |-> [q \in 1..Len(a.g) |-> MulP(2, MulP(a.v, a.g[q]))]]
-    [] t = "dx0" -> a.g[1]  [] t = "dx1" -> a.g[2]  [] t = "val" -> a.v  [] t = "gradD" -> a.g
-    [] t = "norm" -> Fn("sqrt", SumP([q \in 1..Len(a) |-> MulP(a[q], a[q])]))
-    [] t = "v0" -> a[1]  [] t = "v1" -> a[2]
-    [] t = "det" -> Det(a)  [] t = "tr" -> SumP([q \in 1..Len(a) |-> a[q][q]])  [] t = "m01" -> a[1][2]
-    [] t = "T" -> [i \in 1..Len(a[1]) |-> [j \in 1..Len(a) |-> a[j][i]]]
-    [] t = "inv" -> InverseM(a)
-Binary(t, a, b) ==
-  CASE t \in {"+", "-", "*", "/"} -> Op2(t, a, b)
-    [] t = "+D" -> [v |-> AddP(a.v, b.v), g |-> VecOp("+", a.g, b.g)]
-    [] t = "-D" -> [v |-> SubP(a.v, b.v), g |-> VecOp("-", a.g, b.g)]
-    [] t = "*D" -> [v |-> MulP(a.v, b.v), g |-> [q \in 1..Len(a.g) |-> AddP(MulP(a.g[q], b.v), MulP(a.v, b.g[q]))]]
-    [] t = "/D" -> [v |-> DivP(a.v, b.v),
-                    g |-> [q \in 1..Len(a.g) |-> DivP(SubP(MulP(a.g[q], b.v), MulP(a.v, b.g[q])), MulP(b.v, b.v))]]
-    [] t = "inner" -> SumP([q \in 1..Len(a) |-> MulP(a[q], b[q])])
-    [] t = "v+" -> VecOp("+", a, b)  [] t = "v-" -> VecOp("-", a, b)
-    [] t = "cross" -> <<SubP(MulP(a[2], b[3]), MulP(a[3], b[2])), SubP(MulP(a[3], b[1]), MulP(a[1], b[3])),
-                        SubP(MulP(a[1], b[2]), MulP(a[2], b[1]))>>
-    [] t = "sv*" -> [q \in 1..Len(b) |-> MulP(a, b[q])]
-    [] t = "matvec" -> [r \in 1..Len(a) |-> SumP([c \in 1..Len(b) |-> MulP(a[r][c], b[c])])]
-    [] t = "matmat" -> [r \in 1..Len(a) |-> [c \in 1..Len(b[1]) |-> SumP([m \in 1..Len(b) |-> MulP(a[r][m], b[m][c])])]]
-    [] t = "m+" -> [r \in 1..Len(a) |-> VecOp("+", a[r], b[r])]
-    [] t = "minner" -> SumP([q \in 1..(Len(a) * Len(a[1])) |->
-                              LET r == ((q - 1) \div Len(a[1])) + 1  c == ((q - 1) % Len(a[1])) + 1 IN MulP(a[r][c], b[r][c])])
-    [] t = "outer" -> [r \in 1..Len(a) |-> [c \in 1..Len(b) |-> MulP(a[r], b[c])]]
+AB == INSTANCE VFormAbs WITH FAdd <- AddP, FSub <- SubP, FMul <- MulP, FDiv <- DivP, FNeg <- NegP, FFn <- Fn,
+                            FZero <- 0, FOne <- 1, FTwo <- 2
 
 AbsRun(tokens, pr, env, vn) ==      \* value of  (expression) * dx
-  LET st == FoldLeft(LAMBDA stk, t :
-                IF IsLeaf(t) THEN Append(stk, Leaf(pr, env, t, vn))
-                ELSE IF IsUnary(t) THEN Append(SubSeq(stk, 1, Len(stk) - 1), Unary(t, stk[Len(stk)]))
-                ELSE Append(SubSeq(stk, 1, Len(stk) - 2), Binary(t, stk[Len(stk) - 1], stk[Len(stk)])),
-              <<>>, tokens)
-  IN <<MulP(st[1], MulP(GW(pr, env), Fn("abs", Det(Jac(pr, env)))))>>
+  LET lv == [t \in AB!LeafTokens |-> Leaf(pr, env, t, vn)] IN
+  <<MulP(AB!AbsEval(tokens, lv), MulP(GW(pr, env), Fn("abs", Det(Jac(pr, env)))))>>
 
 -----------------------------------------------------------------------------
 VARIABLE k
